@@ -73,6 +73,7 @@ type StdOptions struct {
 	NoCustomClaims bool
 	AllGrants      bool // every client is registered for every grant type
 	IssuerMode     string
+	IssuerPath     string // e.g. "/oidc": the issuer carries a path and the provider is mounted below it
 	Options        []op.Option
 	Endpoints      *op.Endpoints
 }
@@ -152,12 +153,19 @@ func NewStd(o *kernel.Outcome, tape *kernel.Tape, opt StdOptions) (*World, error
 	opts = append(opts, op.WithAccessTokenVerifierOpts(op.WithSupportedAccessTokenSigningAlgorithms(string(w.SigAlg))),
 		op.WithIDTokenHintVerifierOpts(op.WithSupportedIDTokenHintSigningAlgorithms(string(w.SigAlg))))
 	opts = append(opts, opt.Options...)
-	node, err := BuildOP(w.Store, OPConfig{Router: w.Router, Issuer: w.Issuer, IssuerMode: opt.IssuerMode, Config: w.Conf, Caps: w.Caps, Options: opts, Endpoints: opt.Endpoints})
+	w.Issuer += opt.IssuerPath
+	for _, id := range w.SortedClients() {
+		w.Store.Clients[id].LoginBase = w.Issuer + "/login"
+	}
+	node, err := BuildOP(w.Store, OPConfig{Router: w.Router, Issuer: w.Issuer, IssuerPath: opt.IssuerPath, IssuerMode: opt.IssuerMode, Config: w.Conf, Caps: w.Caps, Options: opts, Endpoints: opt.Endpoints})
 	if err != nil {
 		return nil, err
 	}
 	w.OP = node
 	w.Net.Hosts["op.sim"] = node.Handler
+	if opt.IssuerPath != "" {
+		w.Net.Hosts["op.sim"] = http.StripPrefix(opt.IssuerPath, node.Handler)
+	}
 	w.Raw = w.Net.Client("raw", nil, false)
 	return w, nil
 }
